@@ -35,6 +35,7 @@ RUN_PARAMS = {"non_negative": [True], "monotonicity": [True], "unimodality": [Tr
               "simplex": [1.0, 0.5, 2.5, 3], "soft_sparsity": [1.0, 0.3, 2.0], "hard_sparsity": [2, 3, 5, 1],
               "normalized_sparsity": [2, 3, 4, 1], "l1_reg": [0.05], "l2_reg": [0.1], "l2_square_reg": [0.2], "smoothness": [0.3]}
 TOL = 1e-9
+USER_RANDOM_INITS = ("user", "user_w1", "user_w", "user_w_one_off")   # a user CP tensor of random factors: no weights / unit / general weights
 
 
 # ----------------------------------------------------------------------------- literals / (de)serialisation of specifications
@@ -322,9 +323,9 @@ def call_case(cid, k, p, a, out):
 
 
 def select_calls(tier):
-    """quick: <= 40 calls per kind spread evenly over the recorded ones (every kind that occurred is represented);
+    """quick: <= 30 calls per kind spread evenly over the recorded ones (every kind that occurred is represented);
     thorough: <= 400 per kind"""
-    per = 40 if tier == "quick" else 400
+    per = 30 if tier == "quick" else 400
     out = []
     for k in HARD:
         ks = [c for c in OP_CALLS if c[0] == k]
@@ -333,6 +334,267 @@ def select_calls(tier):
             ks = [ks[int(i * step)] for i in range(per)]
         out += ks
     return out
+
+
+# ----------------------------------------------------------------------------- (g) static tie: ast extraction (corr:C11-static)
+HEADER_STATIC = HEADER.replace("Model.Constraints Corr.C11", "Model.Constraints Model.ConstraintsOps Corr.C11") + "\nDefinition failing := failing_static."
+PYFUN = {"soft_thresholding": "FSoftThresholding", "l2_prox": "FL2Prox", "l2_square_prox": "FL2SquareProx", "unimodality_prox": "FUnimodalityProx",
+         "simplex_prox": "FSimplexProx", "normalized_sparsity_prox": "FNormalizedSparsityProx", "soft_sparsity_prox": "FSoftSparsityProx",
+         "smoothness_prox": "FSmoothnessProx", "monotonicity_prox": "FMonotonicityProx", "hard_thresholding": "FHardThresholding"}
+
+
+class StaticError(Exception):
+    pass
+
+
+def _kcoq(name):
+    if name not in KINDS:
+        raise StaticError(f"not one of the twelve keywords: {name!r}")
+    return KCOQ[KINDS.index(name)]
+
+
+def _find_def(tree, name, cls=None):
+    import ast
+    body = tree.body
+    if cls is not None:
+        cs = [n for n in body if isinstance(n, ast.ClassDef) and n.name == cls]
+        if len(cs) != 1:
+            raise StaticError(f"class {cls} not found")
+        body = cs[0].body
+    fs = [n for n in body if isinstance(n, ast.FunctionDef) and n.name == name]
+    if len(fs) != 1:
+        raise StaticError(f"function {name} not found (or defined twice)")
+    return fs[0]
+
+
+def _is_tl(node, attr):
+    import ast
+    return isinstance(node, ast.Attribute) and node.attr == attr and isinstance(node.value, ast.Name) and node.value.id == "tl"
+
+
+def _is_name(node, ident):
+    import ast
+    return isinstance(node, ast.Name) and node.id == ident
+
+
+def _dop(expr, module_funcs):
+    """the returned expression of one branch of proximal_operator -> Gallina `dop`"""
+    import ast
+    if isinstance(expr, ast.Call) and _is_tl(expr.func, "clip") and len(expr.args) == 1 and _is_name(expr.args[0], "tensor") \
+            and len(expr.keywords) == 1 and expr.keywords[0].arg == "a_min" and isinstance(expr.keywords[0].value, ast.Constant) \
+            and expr.keywords[0].value.value == 0 and not isinstance(expr.keywords[0].value.value, bool):
+        return "DClip0"
+    if isinstance(expr, ast.BinOp) and isinstance(expr.op, ast.Div) and _is_name(expr.left, "tensor"):
+        r = expr.right
+        if isinstance(r, ast.Call) and _is_tl(r.func, "max") and len(r.args) == 1 and not r.keywords:
+            a = r.args[0]
+            if isinstance(a, ast.Call) and _is_tl(a.func, "abs") and len(a.args) == 1 and not a.keywords and _is_name(a.args[0], "tensor"):
+                return "DDivMaxAbs"
+        return "DUnknown"
+    if isinstance(expr, ast.Call) and isinstance(expr.func, ast.Name):
+        f = PYFUN.get(expr.func.id) if expr.func.id in module_funcs else None
+        args = []
+        for a in expr.args:
+            args.append("ATensor" if _is_name(a, "tensor") else "AParam" if _is_name(a, "parameter") else "AUnknown")
+        for kw in expr.keywords:
+            if kw.arg == "decreasing" and isinstance(kw.value, ast.Constant) and isinstance(kw.value.value, bool):
+                args.append(f"(AKwDecreasing {C.boolc(kw.value.value)})")
+            else:
+                args.append("AUnknown")
+        return f"(DCall {f or 'FUnknown'} [{'; '.join(args)}])"
+    return "DUnknown"
+
+
+def _branch_return(body):
+    """a branch body `[x = e;]* return e'` -> the returned expression with the single-assignment names substituted; None otherwise"""
+    import ast, copy
+    env = {}
+
+    class Sub(ast.NodeTransformer):
+        def visit_Name(self, node):
+            return copy.deepcopy(env[node.id]) if isinstance(node.ctx, ast.Load) and node.id in env else node
+    for st in body[:-1]:
+        if not (isinstance(st, ast.Assign) and len(st.targets) == 1 and isinstance(st.targets[0], ast.Name)
+                and st.targets[0].id not in ("tensor", "parameter", "constraint")):
+            return None
+        env[st.targets[0].id] = Sub().visit(copy.deepcopy(st.value))
+    if not body or not isinstance(body[-1], ast.Return) or body[-1].value is None:
+        return None
+    return Sub().visit(copy.deepcopy(body[-1].value))
+
+
+def _static_dispatch(px_tree):
+    import ast
+    fn = _find_def(px_tree, "proximal_operator")
+    module_funcs = {n.name for n in px_tree.body if isinstance(n, ast.FunctionDef)}
+    chain = [st for st in fn.body if isinstance(st, ast.If) and isinstance(st.test, ast.Compare) and _is_name(st.test.left, "constraint")]
+    if len(chain) != 1:
+        raise StaticError("proximal_operator: expected exactly one if/elif chain on `constraint`")
+    node = chain[0]
+    t = node.test
+    none_ok = (len(t.ops) == 1 and isinstance(t.ops[0], ast.Is) and isinstance(t.comparators[0], ast.Constant) and t.comparators[0].value is None
+               and len(node.body) == 1 and isinstance(node.body[0], ast.Return) and _is_name(node.body[0].value, "tensor"))
+    table, else_raises = [], False
+    rest = node.orelse
+    while rest:
+        if len(rest) == 1 and isinstance(rest[0], ast.If):
+            br = rest[0]
+            t = br.test
+            if not (isinstance(t, ast.Compare) and _is_name(t.left, "constraint") and len(t.ops) == 1 and isinstance(t.ops[0], ast.Eq)
+                    and isinstance(t.comparators[0], ast.Constant) and isinstance(t.comparators[0].value, str)):
+                raise StaticError("proximal_operator: a branch test is not `constraint == \"<name>\"`")
+            expr = _branch_return(br.body)
+            table.append(f"({_kcoq(t.comparators[0].value)}, {_dop(expr, module_funcs) if expr is not None else 'DUnknown'})")
+            rest = br.orelse
+        else:
+            else_raises = all(isinstance(st, ast.Raise) for st in rest)
+            break
+    return none_ok, table, else_raises
+
+
+def _ndim_names(fn):
+    """names assigned from tl.ndim(tensor) in this function"""
+    import ast
+    out = set()
+    for st in ast.walk(fn):
+        if isinstance(st, ast.Assign) and len(st.targets) == 1 and isinstance(st.targets[0], ast.Name) and _is_ndim(st.value, set()):
+            out.add(st.targets[0].id)
+    return out
+
+
+def _is_ndim(node, names):
+    import ast
+    if isinstance(node, ast.Name) and node.id in names:
+        return True
+    return (isinstance(node, ast.Call) and _is_tl(node.func, "ndim") and len(node.args) == 1 and not node.keywords and _is_name(node.args[0], "tensor"))
+
+
+def _calls_with_loops(fn, callee):
+    """[(Call node, [enclosing For nodes, outermost first], enclosing statement)] for every call of `callee` in fn"""
+    import ast
+    found = []
+
+    def walk(node, loops, stmt):
+        for child in ast.iter_child_nodes(node):
+            st = child if isinstance(child, ast.stmt) else stmt
+            if isinstance(child, ast.Call) and isinstance(child.func, ast.Name) and child.func.id == callee:
+                found.append((child, list(loops), st))
+            walk(child, loops + [child] if isinstance(child, ast.For) else loops, st)
+    walk(fn, [], None)
+    return found
+
+
+def _loop_alias(loop, name):
+    """`name` is the loop variable, or is bound once, at the top level of the loop body, by `name = <loop variable>`"""
+    import ast
+    if loop.target.id == name:
+        return True
+    def stores(st):
+        tg = st.targets if isinstance(st, ast.Assign) else [st.target] if isinstance(st, (ast.AugAssign, ast.For, ast.NamedExpr)) else []
+        return any(isinstance(t, ast.Name) and t.id == name and isinstance(t.ctx, ast.Store) for g in tg for t in ast.walk(g))
+    binds = [st for st in ast.walk(loop) if stores(st)]
+    return (len(binds) == 1 and binds[0] in loop.body and isinstance(binds[0], ast.Assign) and len(binds[0].targets) == 1
+            and _is_name(binds[0].targets[0], name) and _is_name(binds[0].value, loop.target.id))
+
+
+def _static_forward(fn, callee, self_attrs=False):
+    """(pairs, oexp, nexp) of the single call of `callee` in fn"""
+    import ast
+    calls = _calls_with_loops(fn, callee)
+    if len(calls) != 1:
+        raise StaticError(f"{fn.name}: expected exactly one call of {callee}, found {len(calls)}")
+    call, loops, stmt = calls[0]
+    params = {a.arg for a in fn.args.args + fn.args.kwonlyargs}
+    nd = _ndim_names(fn)
+    if any(kw.arg is None for kw in call.keywords):
+        raise StaticError(f"{fn.name} -> {callee}: **kwargs forwarding is outside the translator")
+    pairs, oexp, nexp = [], "ONone", "NNone"
+    npos = len(call.args)
+    for kw in call.keywords:
+        v = kw.value
+        if kw.arg in KINDS:
+            if self_attrs:
+                src = v.attr if isinstance(v, ast.Attribute) and _is_name(v.value, "self") else None
+            else:
+                src = v.id if isinstance(v, ast.Name) and v.id in params else None
+            if src in KINDS:
+                pairs.append(f"({_kcoq(kw.arg)}, {_kcoq(src)})")
+            # anything else: the pair is missing and forward_ok fails (fail closed)
+        elif kw.arg == "order":
+            if isinstance(v, ast.Name) and v.id == "order" and "order" in params:
+                oexp = "OParam"
+            elif isinstance(v, ast.Name) and loops and isinstance(loops[-1].target, ast.Name) and _loop_alias(loops[-1], v.id):
+                it = loops[-1].iter
+                if _is_name(it, "modes_list"):
+                    oexp = "OLoopModesList"
+                elif (isinstance(it, ast.Call) and _is_name(it.func, "range") and len(it.args) == 1 and _is_ndim(it.args[0], nd)
+                      and npos == 1 and isinstance(call.args[0], ast.Subscript) and _is_name(call.args[0].slice, v.id)
+                      and isinstance(stmt, ast.Assign) and len(stmt.targets) == 1 and isinstance(stmt.targets[0], ast.Subscript)
+                      and ast.dump(stmt.targets[0].value) == ast.dump(call.args[0].value) and _is_name(stmt.targets[0].slice, v.id)):
+                    oexp = "OLoopRangeNdim"       # for i in range(ndim): factors[i] = proximal_operator(factors[i], ..., order=i)
+                else:
+                    oexp = "OOther"
+            else:
+                oexp = "OOther"
+        elif kw.arg == "n_const":
+            nexp = "NParam" if (isinstance(v, ast.Name) and v.id == "n_const" and "n_const" in params) else "NNdimTensor" if _is_ndim(v, nd) else "NOther"
+    return pairs, oexp, nexp
+
+
+def static_cases():
+    """Gallina `scase` literals regenerated from the source files of VERIF_REPO; raises StaticError on a construct outside the translator"""
+    import ast, warnings
+    def tree(rel):
+        with warnings.catch_warnings():
+            warnings.simplefilter("ignore")
+            return ast.parse(open(os.path.join(C.REPO, rel)).read())
+    px, ad, cp = tree("tensorly/tenalg/proximal.py"), tree("tensorly/solvers/admm.py"), tree("tensorly/decomposition/_constrained_cp.py")
+    cases, names = [], []
+    # SKinds
+    vc = _find_def(px, "validate_constraints")
+    lists = {}
+    for st in vc.body:
+        if isinstance(st, ast.Assign) and len(st.targets) == 1 and isinstance(st.targets[0], ast.Name) and st.targets[0].id in ("constraints_list", "constraints_names"):
+            lists[st.targets[0].id] = st.value
+    if set(lists) != {"constraints_list", "constraints_names"} or not all(isinstance(v, ast.List) for v in lists.values()):
+        raise StaticError("validate_constraints: constraints_list / constraints_names are not list displays")
+    params = {a.arg for a in vc.args.args}
+    vs = []
+    for e in lists["constraints_list"].elts:
+        if not (isinstance(e, ast.Name) and e.id in params):
+            raise StaticError("validate_constraints: constraints_list holds something else than parameter names")
+        vs.append(_kcoq(e.id))
+    ns = []
+    for e in lists["constraints_names"].elts:
+        if not (isinstance(e, ast.Constant) and isinstance(e.value, str)):
+            raise StaticError("validate_constraints: constraints_names holds something else than string constants")
+        ns.append(_kcoq(e.value))
+    cases.append(f"SKinds {len(cases)}%nat [{'; '.join(vs)}] [{'; '.join(ns)}]"); names.append("validate_constraints: constraints_list / constraints_names")
+    # SDispatch
+    none_ok, table, else_raises = _static_dispatch(px)
+    cases.append(f"SDispatch {len(cases)}%nat {C.boolc(none_ok)} [{'; '.join(table)}] {C.boolc(else_raises)}"); names.append("proximal_operator: dispatch chain")
+    # SForward
+    sites = [("SProxToValidate", _find_def(px, "proximal_operator"), "validate_constraints", False),
+             ("SAdmmToProx", _find_def(ad, "admm"), "proximal_operator", False),
+             ("SInitToProx", _find_def(cp, "initialize_constrained_parafac"), "proximal_operator", False),
+             ("SCpToValidate", _find_def(cp, "constrained_parafac"), "validate_constraints", False),
+             ("SCpToInit", _find_def(cp, "constrained_parafac"), "initialize_constrained_parafac", False),
+             ("SCpToAdmm", _find_def(cp, "constrained_parafac"), "admm", False),
+             ("SClassToCp", _find_def(cp, "fit_transform", "ConstrainedCP"), "constrained_parafac", True)]
+    for site, fn, callee, selfa in sites:
+        pairs, oexp, nexp = _static_forward(fn, callee, selfa)
+        cases.append(f"SForward {len(cases)}%nat {site} [{'; '.join(pairs)}] {oexp} {nexp}"); names.append(f"{fn.name} -> {callee}")
+    # SClassInit: self.<kw> = <kw>
+    init = _find_def(cp, "__init__", "ConstrainedCP")
+    iparams = {a.arg for a in init.args.args + init.args.kwonlyargs}
+    pairs = []
+    for st in ast.walk(init):
+        if isinstance(st, ast.Assign) and len(st.targets) == 1 and isinstance(st.targets[0], ast.Attribute) and _is_name(st.targets[0].value, "self") \
+                and st.targets[0].attr in KINDS:
+            if isinstance(st.value, ast.Name) and st.value.id in iparams and st.value.id in KINDS:
+                pairs.append(f"({_kcoq(st.targets[0].attr)}, {_kcoq(st.value.id)})")
+    cases.append(f"SForward {len(cases)}%nat SClassInit [{'; '.join(pairs)}] ONone NNone"); names.append("ConstrainedCP.__init__")
+    return cases, names
 
 
 # ----------------------------------------------------------------------------- real runs
@@ -421,6 +683,7 @@ def run_cfg(cfg, rec=None):
     n, rank = len(cfg["shape"]), cfg["rank"]
     rs = np.random.RandomState(cfg["seed"] + 7919)
     user = None
+    weights = None
     if cfg["init"] in ("svd", "random"):
         init = cfg["init"]
     elif cfg["init"] == "user_feasible":
@@ -442,10 +705,15 @@ def run_cfg(cfg, rec=None):
         n_init = cfg.get("n_init", n)      # a CP tensor with fewer / more factors than the tensor has modes
         dims = list(cfg["shape"][:n_init]) + [3] * max(0, n_init - n)
         user = [rs.randn(d, rank) for d in dims]
-        w = np.ones(rank) if cfg["init"] == "user_w1" else None
+        # weights of the user's CP tensor: None / all ones (taken as they are) / general, or ones except one entry (multiplied into the last factor)
+        w = (np.ones(rank) if cfg["init"] == "user_w1" else rs.choice([-2.0, 0.5, 3.0], size=rank) if cfg["init"] == "user_w"
+             else np.concatenate([np.ones(rank - 1), [2.0]]) if cfg["init"] == "user_w_one_off" else None)
         init = (w, [np.array(f, copy=True) for f in user])
+        weights = w
     kw = dict(n_iter_max=cfg["n_outer"], n_iter_max_inner=cfg["n_inner"], init=init, random_state=cfg["seed"],
               fixed_modes=(list(cfg["fixed"]) if cfg["fixed"] else None), tol_outer=cfg.get("tol_outer", 1e-8), **spec)
+    if cfg.get("cvg"):
+        kw["cvg_criterion"] = cfg["cvg"]      # 'rec_error': the other documented stopping rule (stopping is arbitrary in the model)
     if cfg.get("via_class"):
         def fn():
             return ConstrainedCP(rank, **kw).fit_transform(X)
@@ -460,8 +728,8 @@ def run_cfg(cfg, rec=None):
         st, v = C.call_impl(fn)
         calls = None
     if st == "ok":
-        return dict(status="ok", factors=[np.asarray(f) for f in v.factors], user=user, calls=calls)
-    return dict(status=st, message=v, user=user, calls=calls)
+        return dict(status="ok", factors=[np.asarray(f) for f in v.factors], user=user, calls=calls, weights=weights)
+    return dict(status=st, message=v, user=user, calls=calls, weights=weights)
 
 
 def checked_modes(cfg):
@@ -493,7 +761,7 @@ def err_ok(cfg):
 
 def n_init_of(cfg):
     n = len(cfg["shape"])
-    return cfg.get("n_init", n) if cfg["init"] in ("user", "user_w1") else n
+    return cfg.get("n_init", n) if cfg["init"] in USER_RANDOM_INITS else n
 
 
 def corner_raise(cfg):
@@ -586,6 +854,9 @@ def prov_lit(cfg, res):
                 out.append("PvOther")
         elif res["user"] is not None and m < len(res["user"]) and res["user"][m].shape == F.shape and np.array_equal(res["user"][m], F, equal_nan=True):
             out.append(f"PvUser {C.nat(m)}")
+        elif (res["user"] is not None and m == len(res["user"]) - 1 and res.get("weights") is not None and res["user"][m].shape == F.shape
+              and np.array_equal(res["user"][m] * np.reshape(res["weights"], (1, -1)), F, equal_nan=True)):
+            out.append(f"PvUserW {C.nat(m)}")
         else:
             out.append("PvOther")
     return "(Ok [" + "; ".join(out) + "])"
@@ -866,6 +1137,8 @@ def gen_run_cfgs(tier, rng):
                             cfg["fixed"] = sorted(rng.sample(range(n), rng.randint(1, 2)))
                         if rng.random() < 0.2:
                             cfg["tol_outer"] = rng.choice([0, 1e-1, 10.0])
+                        if rng.random() < 0.15:
+                            cfg["cvg"] = "rec_error"
                         yield cfg, "single"
     # mixed: several kinds on disjoint modes, all forms, fixed modes, user inits
     for _ in range(160 * mult):
@@ -947,6 +1220,19 @@ def gen_run_cfgs(tier, rng):
                 cfg["n_init"] = n + 1 if variant == "long_init" else n - 1
                 cfg["shape"] = [max(2, d) for d in cfg["shape"]]
             yield cfg, "corner"
+    # user CP tensors WITH weights (general, or ones except one entry): the initialiser multiplies them into the last factor; with outer
+    # budget 0 / a fixed ... mode the factors come back as supplied except the last one, which comes back scaled
+    for _ in range(8 * mult):
+        for init in ("user_w", "user_w_one_off"):
+            cfg = base()
+            n = len(cfg["shape"])
+            k = rng.choice(HARD)
+            S = tuple(sorted(rng.sample(range(n), rng.randint(1, n))))
+            cfg.update(n_outer=rng.choice([0, 0, 1, 3]), n_inner=rng.choice([1, 3]), init=init, rank=rng.choice([2, 3]),
+                       spec=spec_to_json({k: form_spec(k, rng.choice(["scalar", "list", "dict"]), S if rng.random() < 0.8 else tuple(range(n)), n, rng.choice(RUN_PARAMS[k]))}))
+            if rng.random() < 0.4:
+                cfg["fixed"] = sorted(rng.sample(range(n), rng.randint(1, 2)))
+            yield cfg, "user_weights"
     # exact ties in the iterates: data constant along the constrained mode (replicated slices) / one magnitude, structured warm
     # starts (all ones, identical rows, one magnitude) or svd; parameters below the number of tied entries
     for k in HARD:
@@ -1121,7 +1407,9 @@ def run(chk):
                 cid = len(cases)
                 n = len(cfg["shape"])
                 user = cfg["init"] not in ("svd", "random")
-                cases.append(f"CTrace {idlit(cid)} {n}%nat {specs_lit(spec)} {C.boolc(user)} {n_init_of(cfg) if user else n}%nat {C.boolc(err_ok(cfg))} {C.nat_list(cfg['fixed'])} "
+                w_ = res.get("weights")
+                wone = w_ is None or bool(np.all(np.asarray(w_) == 1))
+                cases.append(f"CTrace {idlit(cid)} {n}%nat {specs_lit(spec)} {C.boolc(user)} {n_init_of(cfg) if user else n}%nat {C.boolc(wone)} {C.boolc(err_ok(cfg))} {C.nat_list(cfg['fixed'])} "
                              f"{cfg['n_outer']}%nat {cfg['n_inner']}%nat {lit}")
                 meta.append(("trace", cfg, lit))
                 n_trace += 1
@@ -1170,22 +1458,50 @@ def run(chk):
     chk.cov["feasibility_decided_in_coq"] = n_feas_coq
 
     # (f) operator calls recorded inside the runs above (initialiser, ADMM iterations, admm on its own): the operator family of the
-    # end-to-end theorems (Model/ConstraintsOps.v at Qops) on the recorded input vs the recorded output
-    n_calls = 0
+    # end-to-end theorems (Model/ConstraintsOps.v at Qops) on the recorded input vs the recorded output; own small shards (these
+    # cases are the expensive ones)
+    call_cases, call_meta = [], []
     for (k, p_, a, o) in select_calls(tier):
-        lit = call_case(len(cases), k, p_, a, o)
+        lit = call_case(len(call_cases), k, p_, a, o)
         if lit is None:
             chk.hist("op_call", "outside_domain")
             continue
-        cases.append(lit)
-        meta.append(("call", k, p_, a, o))
+        call_cases.append(lit)
+        call_meta.append((k, p_, a, o))
         chk.hist("op_call", k)
-        n_calls += 1
     chk.cov["operator_calls_recorded"] = len(OP_CALLS)
-    chk.cov["operator_calls_compared_in_coq"] = n_calls
+    chk.cov["operator_calls_compared_in_coq"] = len(call_cases)
 
     failing, n_eval, broken = C.run_case_shards("C11", HEADER, "case", cases, shard=400)
-    chk.checker_cmds.append("coqc (vm_compute) on generated build/cases/C11/*.v: Corr.C11.failing")
+    if call_cases:
+        cfail, cn, cbroken = C.run_case_shards("C11", HEADER, "case", call_cases, shard=60, tag="calls")
+        n_eval += cn
+        for b in cbroken:
+            chk.broken.append({"what": "correspondence corr:C11 (operator calls) shard not evaluated", "detail": b})
+        for i in sorted(cfail):
+            k_, p_, a_, o_ = call_meta[i]
+            chk.disagreement("corr:C11 operator call (Model/ConstraintsOps.v op_gen at Qops - the operator family of the end-to-end theorems - vs the "
+                             "output of the proximal_operator call recorded inside a run)",
+                             {"kind": k_, "parameter": p_, "input": a_, "observed": o_})
+    # (g) static tie: model pieces regenerated from the current source (ast), decided in Coq
+    try:
+        scases, snames = static_cases()
+    except (StaticError, OSError, SyntaxError) as e:
+        scases, snames = [], []
+        chk.broken.append({"what": "corr:C11-static: a construct of validate_constraints / proximal_operator / admm / _constrained_cp.py is outside the ast translator "
+                                   "(the static tie between source and model is broken, fail closed)", "detail": f"{type(e).__name__}: {e}"[:500]})
+    if scases:
+        sfail, sn, sbroken = C.run_case_shards("C11", HEADER_STATIC, "scase", scases, shard=60, tag="static")
+        chk.cov["static_pieces_regenerated_from_source"] = sn
+        chk.count(key=("static",), nontrivial=True, n=sn)
+        for b in sbroken:
+            chk.broken.append({"what": "correspondence corr:C11-static shard not evaluated", "detail": b})
+        for i in sorted(sfail):
+            chk.disagreement("corr:C11-static (a piece of the model regenerated from the current Python source - keyword order, dispatch table of "
+                             "proximal_operator, keyword / order / n_const forwarding between the call sites - is not the one the theorems are stated for: "
+                             "Corr.C11.static_agree)", {"piece": snames[i], "extracted": scases[i][:600]})
+        chk.sample({"stream": "static", "piece": snames[1], "extracted": scases[1][:400]})
+    chk.checker_cmds.append("coqc (vm_compute) on generated build/cases/C11/*.v: Corr.C11.failing, Corr.C11.failing_static")
     chk.cov["traces_validated_against_impl"] = n_trace
     chk.cov["table_cases"] = n_tab
     chk.cov["runs"] = n_runs
@@ -1217,10 +1533,6 @@ def run(chk):
         elif m[0] == "feas":
             chk.disagreement("corr:C11 feasibility (Corr.C11.feasb on the exact rational value vs the Python predicate, which accepted the array)",
                              {"kind": m[1], "parameter": m[2], "array": m[3]})
-        elif m[0] == "call":
-            chk.disagreement("corr:C11 operator call (Model/ConstraintsOps.v op_gen at Qops - the operator family of the end-to-end theorems - vs the "
-                             "output of the proximal_operator call recorded inside a run)",
-                             {"kind": m[1], "parameter": m[2], "input": m[3], "observed": m[4]})
         elif m[0] == "admm":
             chk.disagreement("corr:C11 admm (Model/Constraints.v admm skeleton vs provenance of the primal variable returned by tensorly.solvers.admm.admm)",
                              {"cfg": m[1], "observed_provenance": m[2]})
